@@ -6,6 +6,18 @@ func extraMonitors(prop string, tr *Tracker) []Monitor {
 		return []Monitor{&monC08{base: base{tr}, seen: map[string]bool{}}}
 	case "C03":
 		return []Monitor{&monC03{base: base{tr}}}
+	case "C01":
+		return []Monitor{&monC01{base: base{tr}}}
+	case "C02":
+		return []Monitor{&monC02{base: base{tr}}}
+	case "C04":
+		return []Monitor{&monC04{base: base{tr}}}
+	case "C05":
+		return []Monitor{&monC05{base: base{tr}}}
+	case "C11":
+		return []Monitor{&monC11{base: base{tr}, reqs: map[string]*c11req{}}}
+	case "C12":
+		return []Monitor{&monC12{base: base{tr}}}
 	}
 	return nil
 }
